@@ -50,7 +50,8 @@ int main()
         {
             std::string hex, flags;
             std::size_t nlines;
-            hs >> hex >> nlines >> flags;
+            std::string choices, styles;
+            hs >> hex >> nlines >> flags >> choices >> styles;
             std::string want;
             for(std::size_t i = 0; i < nlines; i++)
             {
@@ -66,6 +67,10 @@ int main()
             drv::Out o;
             o.show_cur = flags.find('c') != std::string::npos;
             o.show_sz = flags.find('s') != std::string::npos;
+            if(!choices.empty())
+                o.choices = choices;
+            if(!styles.empty())
+                o.styles = styles;
             auto out = vh::guarded([&] { run_dump(mi, mode, p, img.size(), o); }, 5000);
             cases++;
             if(out.kind != vh::OK)
@@ -145,14 +150,15 @@ def driver_source(schema, rmsgs, top_header, modes=walk.MODES, want=("dump", "en
 
 def parse_results(text):
     """-> (ok_ids:set, fails: {id: detail}, done: bool)"""
-    ok, fails = set(), {}
+    ok, fails = {}, {}
     done = False
     lines = text.splitlines()
     i = 0
     while i < len(lines):
         l = lines[i]
         if l.startswith("OK "):
-            ok.add(l.split()[1])
+            w = l.split()
+            ok[w[1]] = w[2:]
         elif l.startswith("FAIL "):
             parts = l.split(" ", 2)
             detail = parts[2] if len(parts) > 2 else ""
